@@ -161,6 +161,48 @@ def gsubst(x, t, e):
     return subst(x, t, e)
 
 
+def capture_free(x, avoid, e):
+    """Coq's capture_free: no binder of e on the way to a free occurrence of x is in `avoid` (the free names of the argument)"""
+    k = e[0]
+    if k in ('num', 'unit', 'id'): return True
+    if k in ('par', 'neg'): return capture_free(x, avoid, e[1])
+    if k == 'bop': return capture_free(x, avoid, e[2]) and capture_free(x, avoid, e[3])
+    if k in ('app', 'appfn', 'appmul', 'seq'): return capture_free(x, avoid, e[1]) and capture_free(x, avoid, e[2])
+    if k == 'fn': return e[1] == x or (e[1] not in avoid and capture_free(x, avoid, e[2]))
+    if k == 'set': return capture_free(x, avoid, e[2])
+    raise ValueError(k)
+
+
+def alpha(e, m, ctr):
+    """rename every lambda parameter to a fresh, unique name (lexically: an occurrence is renamed like its innermost
+    binder; free names, assignment targets and globals stay).  Lexical scoping means the program keeps its meaning."""
+    k = e[0]
+    if k in ('num', 'unit'): return e
+    if k == 'id': return ('id', m.get(e[1], e[1]))
+    if k in ('par', 'neg'): return (k, alpha(e[1], m, ctr))
+    if k == 'bop': return (k, e[1], alpha(e[2], m, ctr), alpha(e[3], m, ctr))
+    if k in ('app', 'appfn', 'appmul', 'seq'): return (k, alpha(e[1], m, ctr), alpha(e[2], m, ctr))
+    if k == 'fn':
+        ctr[0] += 1
+        new = 'pw%d' % ctr[0]
+        return (k, new, alpha(e[2], dict(m, **{e[1]: new}), ctr))
+    if k == 'set': return (k, e[1], alpha(e[2], m, ctr))
+    raise ValueError(k)
+
+
+def statements_of(e):
+    """the statements of s1; ...; sn (left-nested seq), looking through enclosing parentheses"""
+    while e[0] == 'par':
+        e = e[1]
+    if e[0] != 'seq':
+        return None
+    out = []
+    while e[0] == 'seq':
+        out.append(e[2]); e = e[1]
+    out.append(e)
+    return out[::-1]
+
+
 # ---------------------------------------------------------------------------
 # generator: simple types N (number), F (N -> N), F2 (N -> N -> N), H ((N -> N) -> N)
 
@@ -249,6 +291,184 @@ class Gen:
         return {'N': self.num_expr, 'F': self.fn_atom, 'F2': self.fn2_atom, 'H': self.ho_atom}[t](env, d)
 
 
+# ---------------------------------------------------------------------------
+# name-collision stream: ONE tiny pool of names (all unknown identifiers when undefined) serves as global variables of
+# every type, as lambda parameters at every nesting depth and as free names of stored lambdas.  Terms are simply typed
+# (so every call terminates) with the type of a name taken from its innermost binding; a global keeps its type for the
+# whole history and the graph "global -> names free in its right-hand side" is kept acyclic (a cycle would recurse
+# until the stack overflows: C06).
+
+POOL = ['x', 'y', 'z', 'q', 'fx']
+
+
+class CGen:
+    def __init__(self, r):
+        self.r = r
+
+    @staticmethod
+    def vis(env):
+        d = {}
+        for n, t in env:
+            d[n] = t
+        return d
+
+    def names(self, env, t):
+        return [n for n, tt in self.vis(env).items() if tt == t]
+
+    def bare_num(self, env, prefer=()):
+        """a bare identifier of number type; names in `prefer` (parameter names of the callee / of enclosing lambdas) first"""
+        c = self.names(env, 'N')
+        p = [n for n in c if n in prefer]
+        if p and self.r.random() < 0.7:
+            return idt(self.r.choice(p))
+        return idt(self.r.choice(c)) if c else None
+
+    def atom_num(self, env, d, prefer=()):
+        r = self.r
+        k = r.random()
+        if k < 0.5:
+            b = self.bare_num(env, prefer)
+            if b:
+                return b
+        if k < 0.54:
+            unbound = [n for n in POOL if n not in self.vis(env)]
+            if unbound:
+                return idt(r.choice(unbound))      # a name nothing binds here: must stay unknown, whoever calls
+        if k < 0.85 or d <= 0:
+            return num(r.randint(0, 9))
+        return par(self.num_expr(env, d - 1))
+
+    def num_expr(self, env, d):
+        r = self.r
+        k = r.random()
+        if d <= 0 or k < 0.12:
+            return self.atom_num(env, d)
+        if k < 0.35:
+            return bop(r.choice('+-*'), self.atom_num(env, d - 1), self.atom_num(env, d - 1))
+        if k < 0.7:
+            f = self.fn_atom(env, d - 1)
+            a = self.atom_num(env, d - 1, prefer=binders(f) | set(POOL))
+            return application(f, a) or self.atom_num(env, d)
+        if k < 0.88:
+            f2 = self.fn2_atom(env, d - 1)
+            pref = binders(f2) | set(POOL)
+            a = application(f2, self.atom_num(env, d - 1, prefer=pref))
+            return application(a, self.atom_num(env, d - 1, prefer=pref)) if a else self.atom_num(env, d)
+        h = self.ho_atom(env, d - 1)
+        return application(h, self.fn_atom(env, d - 1))
+
+    def fn_atom(self, env, d):
+        r = self.r
+        c = self.names(env, 'F')
+        k = r.random()
+        if c and k < 0.45:
+            return idt(r.choice(c))
+        if k < 0.6 and d > 0:
+            f2 = self.fn2_atom(env, d - 1)
+            a = application(f2, self.atom_num(env, d - 1, prefer=binders(f2)))
+            if a:
+                return par(a)
+        if k < 0.63:
+            return idt('abs')
+        x = r.choice(POOL)
+        return par(fn(x, self.num_expr(env + [(x, 'N')], d - 1)))
+
+    def fn2_atom(self, env, d):
+        r = self.r
+        c = self.names(env, 'F2')
+        if c and r.random() < 0.45:
+            return idt(r.choice(c))
+        x = r.choice(POOL)
+        y = x if r.random() < 0.35 else r.choice(POOL)       # the inner parameter often shadows the outer one
+        inner = fn(y, self.num_expr(env + [(x, 'N'), (y, 'N')], d - 1))
+        return par(fn(x, par(inner) if r.random() < 0.5 else inner))
+
+    def ho_atom(self, env, d):
+        r = self.r
+        c = self.names(env, 'H')
+        if c and r.random() < 0.4:
+            return idt(r.choice(c))
+        g = r.choice(POOL)
+        body_env = env + [(g, 'F')]
+        if r.random() < 0.5:
+            # the function parameter is called from under another lambda that binds a name the argument may use freely
+            x = r.choice(POOL)
+            if x != g:
+                inner = fn(x, self.num_expr(body_env + [(x, 'N')], max(d - 1, 1)))
+                return par(fn(g, application(par(inner), self.atom_num(body_env, 0)) or self.num_expr(body_env, d - 1)))
+        return par(fn(g, self.num_expr(body_env, d - 1)))
+
+    def any_of(self, t, env, d):
+        return {'N': self.num_expr, 'F': self.fn_atom, 'F2': self.fn2_atom, 'H': self.ho_atom}[t](env, d)
+
+
+def gen_collision_history(r, nsteps=None, faulty=False):
+    g = CGen(r)
+    gtypes = {}          # a global keeps its type for the whole history
+    edges = {}           # global -> names free in its current right-hand side
+    env = []             # the globals defined so far
+    steps = []
+
+    def cyclic(name, frees):
+        seen, todo = set(), list(frees)
+        while todo:
+            n = todo.pop()
+            if n == name:
+                return True
+            if n not in seen:
+                seen.add(n); todo += list(edges.get(n, ()))
+        return False
+
+    # one or two number-valued globals first, so that "global vs parameter of the same name" is in play from the start
+    for name in r.sample(POOL, r.randint(1, 2)):
+        gtypes[name] = 'N'; edges[name] = set()
+        steps.append(setv(name, num(r.randint(1, 9))))
+        env.append((name, 'N'))
+    n = nsteps or r.randint(3, 7)
+    for _ in range(n):
+        k = r.random()
+        if k < 0.5:
+            name = r.choice(POOL)
+            t = gtypes.get(name) or r.choice(['N', 'N', 'F', 'F', 'F2', 'H'])
+            for _try in range(6):
+                e = g.any_of(t, env, 3)
+                frees = idents(e) & set(POOL)
+                if not cyclic(name, frees):
+                    break
+            else:
+                continue
+            gtypes[name] = t
+            edges[name] = frees
+            steps.append(setv(name, e))
+            env = [(a, b) for a, b in env if a != name] + [(name, t)]
+        elif k < 0.92:
+            steps.append(g.num_expr(env, 3))
+        else:
+            nm = r.choice(POOL)
+            if gtypes.get(nm, 'N') != 'N':
+                continue
+            e = g.num_expr(env, 2)
+            if cyclic(nm, idents(e) & set(POOL)):
+                continue
+            gtypes[nm] = 'N'; edges[nm] = idents(e) & set(POOL)
+            env = [(a, b) for a, b in env if a != nm] + [(nm, 'N')]
+            steps.append(seq(setv(nm, e), g.num_expr(env, 2)))
+        if faulty and r.random() < 0.25:
+            steps.append(r.choice(FAULTY_LISTS)(r))
+    return steps, env
+
+
+# statement lists in which a statement other than the last one fails (the list must fail, _/ans must not move)
+FAULTY_LISTS = [
+    lambda r: seq(idt('undefinedq'), num(r.randint(0, 9))),
+    lambda r: seq(seq(setv('gza', num(r.randint(10, 19))), bop('+', num(1), ('unit',))), num(7)),
+    lambda r: seq(bop('-', ('unit',), num(1)), setv('gzb', num(r.randint(20, 29)))),
+    lambda r: seq(seq(num(1), idt('undefinedq')), seq(num(2), num(3))) if False else seq(seq(num(1), idt('undefinedq')), num(3)),
+    lambda r: seq(('appfn', par(num(3)), num(2)), idt('gza')),
+    lambda r: seq(seq(seq(setv('gzc', num(1)), setv('gzd', num(2))), idt('undefinedq')), bop('+', idt('gzc'), idt('gzd'))),
+]
+
+
 NUM_GLOBALS = ['gza', 'gzb', 'gzc', 'gzd']   # none of these (nor gzf1, gzf2, ...) is a unit or built-in when undefined
 
 
@@ -286,7 +506,7 @@ def gen_history(r, shadowing=False, nsteps=None, faulty=False):
                 bop('+', num(1), ('unit',)), idt('undefinedq'), application(num(3), par(('unit',))) or num(1),
                 ('appfn', par(num(3)), num(2)), bop('-', ('unit',), num(1)), seq(setv('gza', num(r.randint(10, 19))), idt('undefinedq')),
                 application(idt('abs'), par(idt('abs'))), bop('*', par(fn('x', idt('x'))), par(fn('y', idt('y')))),
-            ]))
+            ] + [mk(r) for mk in FAULTY_LISTS]))
     return steps, env
 
 
@@ -383,13 +603,18 @@ def check(c):
         thorough_proof(c, ['C09'])
     r = c.rng
     run = Runner(c)
-    N = 400 if c.tier == 'quick' else 20000
+    N = 600 if c.tier == 'quick' else 20000
 
     # ------------------------------------------------------------------
     # (1) impl vs model on histories; history laws on the implementation alone
     hist_ast = []
+    FAMILIES = ['typed', 'shadowing', 'failures', 'collision', 'collision', 'collision-failures']
     for k in range(N):
-        steps, _ = gen_history(r, shadowing=(k % 3 == 1), faulty=(k % 3 == 2))
+        fam = FAMILIES[k % len(FAMILIES)]
+        if fam.startswith('collision'):
+            steps, _ = gen_collision_history(r, faulty=fam.endswith('failures'))
+        else:
+            steps, _ = gen_history(r, shadowing=(fam == 'shadowing'), faulty=(fam == 'failures'))
         hist_ast.append(steps)
     histories = [list(h) for h in BOUNDARY] + [[show(e, r) for e in h] for h in hist_ast]
     intended = [None] * len(BOUNDARY) + hist_ast
@@ -400,7 +625,7 @@ def check(c):
         im = impls[hi]
         if im is None:
             c.violation('history-crashed', {'kind': 'impl-crash', 'history': h}); continue
-        fam = 'boundary' if hi < len(BOUNDARY) else ['typed', 'shadowing', 'failures'][(hi - len(BOUNDARY)) % 3]
+        fam = 'boundary' if hi < len(BOUNDARY) else FAMILIES[(hi - len(BOUNDARY)) % len(FAMILIES)]
         c.note_case('h:' + '|'.join(h), any(('(' in t or '=' in t) for t in h), fam)
         # printer honesty: the implementation parsed what the generator meant
         if intended[hi] is not None:
@@ -450,6 +675,56 @@ def check(c):
                 break
             if polls != mpolls:
                 c.repr_drift += 1
+    # --- statement lists, judged on the implementation alone: s1; ...; sn fails iff some si fails (with that error, the
+    # later statements not run), otherwise it is what sn gives; on failure _ and ans do not move
+    alt, altmeta = [], []
+    for hi, h in enumerate(histories):
+        if impls[hi] is None:
+            continue
+        for si, t in enumerate(h):
+            tree = trees.get(t)
+            stmts = statements_of(tree) if tree else None
+            if not stmts or (idents(tree) & {'_', 'ans'}) or (assigns(tree) & {'_', 'ans'}):
+                continue
+            try:
+                texts = [show(e) for e in stmts]
+            except Exception:
+                continue
+            alt.append(h[:si] + texts); altmeta.append((hi, si, len(texts)))
+    if len(alt) > (400 if c.tier == 'quick' else 6000):
+        pick = sorted(r.sample(range(len(alt)), 400 if c.tier == 'quick' else 6000))
+        alt = [alt[i] for i in pick]; altmeta = [altmeta[i] for i in pick]
+    _, ai, _ = run.run(alt) if alt else ({}, [], {})
+    for (hi, si, n), a in zip(altmeta, ai):
+        h = histories[hi]
+        rep = {'law': 'statement-list', 'history': h, 'step': si, 'input': h[si], 'statements_run_one_by_one': alt[altmeta.index((hi, si, n))][si:]}
+        c.note_case('list:' + '|'.join(h[:si + 1]), True, 'statement-list')
+        if a is None:
+            continue
+        lst = impl_step(impls[hi][si])
+        before = impl_step(impls[hi][si - 1])[3] if si > 0 else {}
+        seps = [impl_step(a[si + j]) for j in range(n)]
+        failing = [j for j, x in enumerate(seps) if not x[0]]
+        if failing:
+            j = failing[0]
+            if lst[0]:
+                c.violation('statement-list-swallowed-a-failure', dict(rep, kind='impl-vs-spec', failing_statement=j, its_error=seps[j][1], list_result=lst[1])); continue
+            if errcode(lst[1]) != errcode(seps[j][1]) or lst[1] != seps[j][1]:
+                c.violation('statement-list-wrong-error', dict(rep, kind='impl-vs-spec', failing_statement=j, its_error=seps[j][1], list_error=lst[1])); continue
+            for nm in ('_', 'ans'):
+                if lst[3].get(nm) != before.get(nm):
+                    c.violation('ans-changed-on-failure', dict(rep, kind='impl-vs-spec', name=nm, before=repr(before.get(nm)), after=repr(lst[3].get(nm))))
+            # the statements before the failing one took effect, the later ones did not
+            want = seps[j - 1][3] if j > 0 else before
+            got = {k: v for k, v in lst[3].items() if k not in ('_', 'ans')}
+            if got != {k: v for k, v in want.items() if k not in ('_', 'ans')}:
+                c.violation('statement-list-state-after-failure', dict(rep, kind='impl-vs-spec', got=repr(got), want=repr(want)))
+        else:
+            if not lst[0] or lst[1] != seps[-1][1]:
+                c.violation('statement-list-differs-from-its-statements', dict(rep, kind='impl-vs-spec', list_result=lst[1], last_statement=seps[-1][1])); continue
+            if {k: v for k, v in lst[3].items()} != seps[-1][3]:
+                c.violation('statement-list-state', dict(rep, kind='impl-vs-spec', got=repr(lst[3]), want=repr(seps[-1][3])))
+    c.extra['statement_lists_judged'] = len(alt)
     c.extra['printer_drift_cases'] = drift
     c.extra['histories_outside_model_fragment'] = unsupported
 
@@ -462,10 +737,8 @@ def check(c):
                 node = get_at(e, path)
                 lam, arg = node[1][1], node[2]
                 x, body = lam[1], lam[2]
-                if idents(arg) & (binders(body) | {x}) - set():
-                    # capture: the law does not apply (the generator's distinct binders make this rare; the shadowing stream hits it)
-                    if idents(arg) & binders(body):
-                        continue
+                if not capture_free(x, idents(arg), body):
+                    continue        # a binder of the body would capture a free name of the argument: the law does not apply
                 e2 = replace_at(e, path, par(subst(x, par(arg), body)))
                 pairs.append((h[:si] + [e], h[:si] + [e2], x, arg, body, node))
     if len(pairs) > (600 if c.tier == 'quick' else 30000):
@@ -506,24 +779,68 @@ def check(c):
     c.extra['closure_print_differs'] = closure_print
 
     # ------------------------------------------------------------------
+    # (2b) alpha: the same history with every lambda parameter renamed to a fresh unique name.  Lexical scoping makes
+    # this meaning-preserving; any confusion between a parameter and a global / another parameter / a caller's binding
+    # of the same name shows as a difference (the renamed program has no name shared between binders).
+    al = []
+    for k, h in enumerate(hist_ast):
+        if FAMILIES[k % len(FAMILIES)] in ('typed', 'failures'):
+            continue
+        ctr = [0]
+        h2 = [alpha(e, {}, ctr) for e in h]
+        if ctr[0]:
+            al.append((h, h2))
+    if len(al) > (600 if c.tier == 'quick' else 12000):
+        al = r.sample(al, 400 if c.tier == 'quick' else 12000)
+    hp = [[show(e) for e in a] for a, _ in al] + [[show(e) for e in b] for _, b in al]
+    _, ali, _ = run.run(hp) if hp else ({}, [], {})
+    nal = len(al)
+    for i in range(nal):
+        a, b = ali[i], ali[nal + i]
+        rep = {'law': 'alpha', 'P': hp[i], 'P_renamed': hp[nal + i]}
+        c.note_case('alpha:' + '|'.join(hp[i]), True, 'alpha-pair')
+        if a is None or b is None:
+            c.violation('alpha-pair-crashed', dict(rep, kind='impl-crash')); continue
+        for j in range(len(hp[i])):
+            ra, rb = impl_step(a[j]), impl_step(b[j])
+            if ra[0] and rb[0] and ra[1] != rb[1] and (ra[1].startswith('\\') or rb[1].startswith('\\')):
+                continue            # closures print their parameter names
+            if ra[0] != rb[0] or (ra[0] and ra[1] != rb[1]) or ((not ra[0]) and (errcode(ra[1]) != errcode(rb[1]))):
+                c.violation('alpha-law-broken', dict(rep, kind='impl-vs-spec', step=j, input=hp[i][j], renamed_input=hp[nal + i][j],
+                                                      P_result=ra[1], P_renamed_result=rb[1])); break
+    c.extra['alpha_pairs'] = nal
+
+    # ------------------------------------------------------------------
     # (3) let-substitution: g = e; uses of g   vs   uses of (e)
     lets = []
     nl = 600 if c.tier == 'quick' else 30000
-    for _ in range(nl):
-        g = Gen(r)
-        pre, env = gen_history(r, nsteps=r.randint(0, 3))
+    for li in range(nl):
+        collide = (li % 2 == 1)
+        if collide:
+            g = CGen(r)
+            pre, env = gen_collision_history(r, nsteps=r.randint(0, 3))
+            # a name no earlier statement mentions (a stored lambda reading it late would be a use the substitution misses)
+            free = [n for n in POOL if n not in dict(env) and not any(n in idents(p) | binders(p) for p in pre)]
+            if not free:
+                continue
+            name = r.choice(free)
+        else:
+            g = Gen(r)
+            pre, env = gen_history(r, nsteps=r.randint(0, 3))
+            name = 'gzz'
         t = r.choice(['N', 'F', 'F2', 'H'])
         e = g.any_of(t, env, 3)
-        if assigns(e):
+        if assigns(e) or name in idents(e):
             continue
-        name = 'gzz'
         env2 = env + [(name, t)]
         uses = [g.num_expr(env2, 3) for _ in range(r.randint(1, 3))]
         if not any(name in idents(u) for u in uses):
             continue
-        uses = [u for u in uses]
-        # the law needs the right-hand side to mean the same at the use: nothing it reads is reassigned by the uses
+        # the law needs the right-hand side to mean the same at the use: nothing it reads is reassigned by the uses,
+        # and no lambda of the use binds a name the right-hand side reads (capture)
         if any(assigns(u) & (idents(e) | {name}) for u in uses):
+            continue
+        if not all(capture_free(name, idents(e), u) for u in uses):
             continue
         p1 = pre + [setv(name, e)] + uses
         p2 = pre + [gsubst(name, par(e), u) for u in uses]
